@@ -42,6 +42,9 @@ type vRestartOut struct {
 	PeerAfter   vHB    `json:"peer_after"`   // peer's record of the node after that exchange
 	PeerKnows   bool   `json:"peer_knows"`   // peer still has a record
 	NodesLoaded int    `json:"nodes_loaded"` // members known right after re-open
+	Img            string `json:"img,omitempty"`
+	NodesAfterOpen int `json:"nodes_after_open"`
+	NodesPersisted int `json:"nodes_persisted"` // members in the surviving storage image
 	Err         string `json:"err,omitempty"`
 }
 
@@ -105,6 +108,7 @@ func vRestartRound(round, ticks int, jump uint32) (res vRestartOut) {
 		return fail(err)
 	}
 	hostKey := c2.HostKey()
+	res.NodesAfterOpen = len(c2.CopyState().Nodes)
 	// the storage image that survives the crash: what Open flushed synchronously
 	img, closer, err := kvA.Get(ctx, key)
 	if err != nil {
@@ -119,6 +123,10 @@ func vRestartRound(round, ticks int, jump uint32) (res vRestartOut) {
 		return fail(err)
 	}
 	res.Persisted = vhb(persisted.Nodes[hostKey].Heartbeat)
+	res.NodesPersisted = len(persisted.Nodes)
+	if res.NodesPersisted != res.NodesAfterOpen {
+		res.Img = string(img)
+	}
 	if jump > 0 {
 		host := c2.Host()
 		host.Heartbeat.Version += jump
